@@ -335,7 +335,7 @@ pub struct TransportPacketSent {
 
     /// only if header.packet_type === "version_negotiation"
     #[builder(default)]
-    #[serde(skip_serializing_if = "Vec::is_empty")]
+    #[serde(default, skip_serializing_if = "Vec::is_empty")]
     supported_versions: Vec<QuicVersion>,
 
     #[builder(default)]
@@ -382,7 +382,7 @@ pub struct TransportPacketReceived {
 
     /// only if header.packet_type === "version_negotiation"
     #[builder(default)]
-    #[serde(skip_serializing_if = "Vec::is_empty")]
+    #[serde(default, skip_serializing_if = "Vec::is_empty")]
     supported_versions: Vec<QuicVersion>,
 
     #[builder(default)]
